@@ -21,7 +21,7 @@ PW = {
     "a_trail": b"correct horse\x00",  # one trailing byte
     "a_case": b"Correct horse",
 }
-KINDS = ["drop_field", "truncate", "b64_params", "b64_data", "edit_N", "edit_r", "edit_p", "edit_saltlen", "edit_digestlen", "edit_lengths", "method", "version", "extra_field", "empty"]
+KINDS = ["drop_field", "truncate", "b64_params", "b64_data", "edit_N", "edit_r", "edit_p", "edit_saltlen", "edit_digestlen", "edit_lengths", "trunc_digest", "b64_lenient", "method", "version", "extra_field", "empty"]
 
 
 def parse_fields(h):
@@ -69,6 +69,30 @@ def corruptions(h, kind, quick):
             edits = grid + sorted(set(cheap))
         for e in edits:
             out.append(":".join([parts[0], parts[1], base64.b64encode(struct.pack(">HBBBB", *e)).decode(), parts[3]]))
+    elif kind == "trunc_digest":
+        # truncation of the stored digest together with the matching edit of the length byte (scrypt output of length L is a prefix of any longer output)
+        N, r, p, sl, dl = struct.unpack(">HBBBB", base64.b64decode(parts[2]))
+        data = base64.b64decode(parts[3])
+        for L in ([1, 8, 15, 16, 20, 23] if quick else range(1, dl)):
+            out.append(":".join([parts[0], parts[1], base64.b64encode(struct.pack(">HBBBB", N, r, p, sl, L)).decode(), base64.b64encode(data[:sl + L]).decode()]))
+    elif kind == "b64_lenient":
+        # damage that a lenient base64 reader skips over or does not notice: foreign characters inside a field, data after the padding, other unused low bits
+        pp, d = parts[2], parts[3]
+        alpha = "ABCDEFGHIJKLMNOPQRSTUVWXYZabcdefghijklmnopqrstuvwxyz0123456789+/"
+        def lowbits(x):
+            if x.endswith("=="):
+                k = alpha.index(x[-3])
+                return x[:-3] + alpha[k ^ 1] + "=="
+            if x.endswith("="):
+                k = alpha.index(x[-2])
+                return x[:-2] + alpha[k ^ 1] + "="
+            return None
+        cands = [(pp, d[:7] + "!" + d[7:]), (pp[:3] + " " + pp[3:], d), (pp, d + "AAAA"), (pp, d + "%%%"), (pp, d + "\n$$$"), (pp + "\n", d), (pp, "\t" + d), (pp, d[:10] + "-_" + d[10:]), (pp, d.rstrip("=")),
+                 (pp, d + "="), (pp, d[:4] + "\r\n" + d[4:])]
+        for x in (lowbits(d), lowbits(pp)):
+            if x is not None:
+                cands.append((pp, x) if x is not None and x != pp and len(x) == len(d) else (x, d))
+        out += [":".join([parts[0], parts[1], a, b]) for a, b in cands]
     elif kind == "method":
         out += [":".join([m] + parts[1:]) for m in ("bcrypt", "", "Scrypt", "scrypt ")]
     elif kind == "version":
@@ -194,7 +218,8 @@ def run(ctx):
                 orig = parse_fields(hashes[o["p"]])
                 for c in cands:
                     jobs.append((impl.REPO, PW[o["q"]], c))
-                    meta.append(dict(op="corrupt", q=o["q"], p=o["p"], kind=o["kind"], same=int(parse_fields(c) == orig), h=c))
+                    # (a string that differs from the stored one is a corruption even when a lenient base64 reader would extract the same bytes from it)
+                    meta.append(dict(op="corrupt", q=o["q"], p=o["p"], kind=o["kind"], same=int(c == hashes[o["p"]]), h=c))
         with ProcessPoolExecutor(16) as ex:
             outs = list(ex.map(_verify, jobs, chunksize=4))
         for m, out in zip(meta, outs):
